@@ -4,6 +4,7 @@
    imports; [extracted_letters] / [extracted_var_formats] = vargenerator.go. *)
 From ACV Require Import Base.Strs Model.Report Model.Names Model.Dnf Model.Escape Model.TemplatesRef.
 From ACV Require Import Proofs.ReportProofs Proofs.NamesProofs Proofs.DnfFuel Proofs.EscapeProofs Extracted.NameFacts Extracted.Templates.
+From ACV Require Import Model.PathGrammar Model.PathSem Model.PathGen Proofs.PathGenProofs.
 Local Open Scope string_scope.
 
 (* ties: the variable alphabet and the name formats are the modelled ones; the snippets that use the names *)
@@ -80,6 +81,24 @@ Example C07_example : var_name 0 = "x" /\ var_name 23 = "o" /\ var_name 24 = "X2
   /\ declared 2 1 "matches" = ["_result_0"; "_result_1"; "msg_var_0"; "message_vars"; "message"; "matches"].
 Proof. vm_compute. repeat split. Qed.
 
+(* the code written for a property path (Model/PathGen.v: one clause per alternative, the statements of
+   traverseRegularProperty per step; its text is compared line by line with the real path rules in the C02 run): for EVERY
+   path, start variable and mode, every clause is safe in the engine's sense - each statement needs only variables bound by
+   earlier statements of the clause - and ends by binding `nodes`, the variable of the rule head *)
+Theorem C07_path_rules_are_safe : forall p fetch v cl, In cl (path_clauses p fetch v) -> safe_from [] (map du cl) = true.
+Proof. exact path_clauses_safe. Qed.
+Theorem C07_path_rules_bind_nodes : forall p fetch v cl, In cl (path_clauses p fetch v) -> exists pre x, cl = (pre ++ [PNodes x])%list.
+Proof. exact clause_ends_with_nodes. Qed.
+Theorem C07_path_rule_example :
+  path_rule_lines (Or [And [Pred "A" false false; Or [Pred "B" false false; Pred "C" true false]]; Pred "D" false false]) false "x"
+  = [["init_x_0 = data.sourceNode"; "tmp_x_0 = nested_nodes with data.nodes as init_x_0[""A""]"; "x_0 = tmp_x_0[_][_]";
+      "nodes_tmp = object.get(x_0,""B"",[])"; "nodes_tmp2 = nodes_array with data.nodes as nodes_tmp"; "x_2 = nodes_tmp2[_]"; "nodes = x_2"];
+     ["init_x_0 = data.sourceNode"; "tmp_x_0 = nested_nodes with data.nodes as init_x_0[""A""]"; "x_0 = tmp_x_0[_][_]";
+      "search_subjects[x_2] with data.predicate as ""C"" with data.object as x_0"; "nodes = x_2"];
+     ["init_x_0 = data.sourceNode"; "nodes_tmp = object.get(init_x_0,""D"",[])"; "nodes_tmp2 = nodes_array with data.nodes as nodes_tmp";
+      "x_0 = nodes_tmp2[_]"; "nodes = x_0"]]%string.
+Proof. exact path_clauses_example. Qed.
+
 Print Assumptions C07_tie_letters.
 Print Assumptions C07_tie_templates.
 Print Assumptions C07_keywords_plain.
@@ -101,3 +120,6 @@ Print Assumptions C07_refuted_before_fixes.
 Print Assumptions C07_refuted_with_a.
 Print Assumptions C07_helpers_not_captured.
 Print Assumptions C07_refuted_with_n.
+Print Assumptions C07_path_rules_are_safe.
+Print Assumptions C07_path_rules_bind_nodes.
+Print Assumptions C07_path_rule_example.
